@@ -500,6 +500,8 @@ func checkC20(c *Ctx, r *Report) {
 			}
 		}
 		r.add("C20.d", "fieldflow", gr+":engine", "the template set and the partials are those of routesConfig.engine", []string{gr}, s2, v2)
+		// routesConfig.packageName is honoured as written
+		checkPackageNameVerbatim(c, r, "C20.d")
 	}
 	if fi := need(c, r, "C20.d", "generator/routes.getOutputFileMod"); fi != nil {
 		viol := ""
